@@ -51,6 +51,7 @@ class MacroExpander(Visitor):
             new_circuit.macros.update(circuit.macros)
         new_circuit.constants.update(circuit.constants)
         new_circuit.registers.update(circuit.registers)
+        new_circuit.usepulses.extend(circuit.usepulses)
         new_circuit.body.statements.extend(self.visit(circuit.body).statements)
         return new_circuit
 
@@ -58,20 +59,36 @@ class MacroExpander(Visitor):
         return LoopStatement(loop.iterations, self.visit(loop.statements))
 
     def visit_BlockStatement(self, block):
-        new_statements = []
-        for stmt in block.statements:
-            new_stmt = self.visit(stmt)
-            if (
-                isinstance(new_stmt, BlockStatement)
-                and new_stmt.parallel == block.parallel
-            ):
-                new_statements.extend(new_stmt.statements)
-            else:
-                new_statements.append(new_stmt)
-        return BlockStatement(parallel=block.parallel, statements=new_statements)
+        new_statements = splice_blocks(
+            block.parallel, (self.visit(stmt) for stmt in block.statements)
+        )
+        return BlockStatement(
+            parallel=block.parallel,
+            subcircuit=block.subcircuit,
+            iterations=block.iterations,
+            statements=new_statements,
+        )
 
     def visit_GateStatement(self, gate):
         return replace_gate(gate, self.macros)
+
+
+def splice_blocks(parallel, statements):
+    """Return the list of statements with the contents of plain blocks
+    of the same kind as their parent (as left behind by expanding a
+    macro) spliced in, since Jaqal does not allow directly nesting
+    blocks of the same kind."""
+    new_statements = []
+    for stmt in statements:
+        if (
+            isinstance(stmt, BlockStatement)
+            and stmt.parallel == parallel
+            and not stmt.subcircuit
+        ):
+            new_statements.extend(stmt.statements)
+        else:
+            new_statements.append(stmt)
+    return new_statements
 
 
 def replace_gate(gate, macros):
@@ -105,7 +122,11 @@ class GateReplacer(Visitor):
     def visit_BlockStatement(self, block: BlockStatement):
         return BlockStatement(
             parallel=block.parallel,
-            statements=[self.visit(stmt) for stmt in block.statements],
+            subcircuit=block.subcircuit,
+            iterations=self.visit(block.iterations),
+            statements=splice_blocks(
+                block.parallel, (self.visit(stmt) for stmt in block.statements)
+            ),
         )
 
     def visit_LoopStatement(self, loop: LoopStatement):
